@@ -66,8 +66,9 @@ pub fn efficiencies_from_counts(
     if signal_singles_rate == Hertz::new(0.) || idler_singles_rate == Hertz::new(0.) {
       0.
     } else {
-      let denom: f64 = *(signal_singles_rate * idler_singles_rate * S * S);
-      *(coincidences_rate * S / denom.sqrt())
+      // sqrt(Rs) * sqrt(Ri) rather than sqrt(Rs * Ri): the product of two rates can leave the f64 range
+      let denom: f64 = (*(signal_singles_rate * S)).sqrt() * (*(idler_singles_rate * S)).sqrt();
+      *(coincidences_rate * S / denom)
     };
   Efficiencies {
     symmetric: symmetric_efficiency,
